@@ -142,10 +142,15 @@ mutual
 partial def hToBuffer (t : Ty) (v : HV) (bi off : Nat) (h : Heap) : Heap :=
   match t, v with
   -- an existing object of a reference-free type: binary copy (update_from_xbuffer)
-  | .struct .., .view sb tv so | .array .., .view sb tv so =>
+  | .struct .., .view sb tv so =>
     if !hasRefs t then
       let n := objSize (getBuf h sb).mem tv so
       hwr h bi off (rd (getBuf h sb).mem so n)
+    else hCompound t v bi off h
+  | .array .., .view sb tv so =>
+    -- binary copy only when the planned size (recomputed from the items) equals the source's size
+    let n := objSize (getBuf h sb).mem tv so
+    if !hasRefs t && n == hsize h t v then hwr h bi off (rd (getBuf h sb).mem so n)
     else hCompound t v bi off h
   | .scalar s, .plain (.bits x) => hwr h bi off (le s.size x)
   | .scalar _, _ => h
